@@ -1,6 +1,7 @@
 (** C01 — Every submitted task runs exactly once. (what is established so far) *)
 From OCV Require Import Cases.Pool.
 From OCV Require Import Sched.PoolWf Sched.PoolRun Sched.PoolProofs Sched.PoolInv Sched.PoolTerm Sched.PoolExample.
+From OCV Require Queue.RingRace.
 Open Scope Z_scope.
 
 Definition c01_witness : pcase :=
@@ -46,8 +47,36 @@ Proof. exact single_pool_no_defect. Qed.
 Example C01_nonvacuous : wf_pool1t 0 ex_cfg ex_ops = true.
 Proof. vm_compute. reflexivity. Qed.
 
+(** * "From any number of threads": the producer side of a pool's local ring
+    ([st3::fifo::Worker::push]: load tail, write slot, publish tail+1), which [submit_task] reaches from
+    every submitting thread. For ANY number of producers and ANY schedule in which a push only starts
+    while no other push is in progress (one producer, or a lock) the consumer sees exactly the
+    completed pushes, in order *)
+Theorem C01_ring_exclusive_pushes_are_kept : forall progs sched,
+  RingRace.exclusive (RingRace.ring0 progs) sched = true ->
+  RingRace.visible (RingRace.rrun (RingRace.ring0 progs) sched)
+  = map Some (RingRace.r_done (RingRace.rrun (RingRace.ring0 progs) sched)).
+Proof. exact RingRace.exclusive_pushes_are_kept. Qed.
+
+Theorem C01_ring_single_producer : forall prog sched,
+  RingRace.visible (RingRace.rrun (RingRace.ring0 [prog]) sched)
+  = map Some (RingRace.r_done (RingRace.rrun (RingRace.ring0 [prog]) sched)).
+Proof. exact RingRace.single_producer_keeps_everything. Qed.
+
+(** two submitting threads: both load the same tail, both write slot 0, both publish tail 1: two
+    pushes completed, one task visible. Reproduced on the real pool (recorded finding
+    [ring_multi_producer]) *)
+Theorem C01_refuted_ring_multi_producer :
+  exists sched, let s := RingRace.rrun (RingRace.ring0 [[7]; [8]]) sched in
+    RingRace.r_done s = [7; 8] /\ RingRace.visible s = [Some 8]
+    /\ RingRace.exclusive (RingRace.ring0 [[7]; [8]]) sched = false.
+Proof. exact RingRace.two_producers_lose_an_item. Qed.
+
 Print Assumptions C01_refuted_stolen_worker_wedges_pool.
 Print Assumptions C01_single_pool.
 Print Assumptions C01_no_call_diverges.
 Print Assumptions C01_result_is_own.
 Print Assumptions C01_single_pool_no_defect.
+Print Assumptions C01_ring_exclusive_pushes_are_kept.
+Print Assumptions C01_ring_single_producer.
+Print Assumptions C01_refuted_ring_multi_producer.
